@@ -33,6 +33,10 @@ for d in sorted(glob.glob('/verif/seeded/*/meta.json')):
     for c, v in m.get('checks', {}).items():
         det.append('%s: %s' % (c, {0: 'missed', 1: 'VIOLATION', 2: 'engine error'}.get(v['rc'], str(v['rc'])) + ' (%s, %ss)' % (v.get('tier', 'quick'), int(v['wall_s']))))
     rows.append((name, valid, first[:110], '; '.join(det)))
+import sys
+out = []
+def print(*a):  # collect
+    out.append(' '.join(str(x) for x in a))
 print('| seeded change | valid | what it is | result of our checks |')
 print('|---|---|---|---|')
 for r in rows:
@@ -43,3 +47,41 @@ print('| refactoring | suite passes | what it is | result of our checks |')
 print('|---|---|---|---|')
 for r in refs:
     print('| %s | %s | %s | %s |' % (r[0], 'yes' if r[1] else 'NO', r[2].replace('|', '/'), r[3]))
+
+# summary
+tot = len(rows)
+own = other = miss = err = 0
+missed = []
+for (name, valid, first, det) in rows:
+    m = json.load(open('/verif/seeded/%s/meta.json' % name))
+    pid = m['property']
+    rcs = {c: v['rc'] for c, v in m.get('checks', {}).items()}
+    if rcs.get(pid) == 1:
+        own += 1
+    elif 1 in rcs.values():
+        other += 1
+    elif 2 in rcs.values() and 0 not in rcs.values():
+        err += 1
+        missed.append(name + ' (no verdict: exit 2)')
+    else:
+        miss += 1
+        missed.append(name)
+ninv = sum(1 for r in rows if not r[1])
+valid_txt = 'all' if ninv == 0 else 'all but %d' % ninv
+summary = ('%d seeded changes (VALIDTXT re-confirmed valid: compile, suite passes, demonstration fails with and passes without): %d are reported as a VIOLATION by the quick check of the '
+           'property they were written against, %d more by the quick check of another property, %d are not reported by any check run against them, and %d leave the '
+           'check without a verdict (exit 2, never a VIOLATION). Not reported: %s. Of the %d behaviour-preserving refactorings none raises a VIOLATION.'
+           % (tot, own, other, miss, err, ', '.join(missed), len(refs))).replace('VALIDTXT', valid_txt)
+import builtins
+if '--insert' in sys.argv:
+    d = open('/verif/DESIGN.md').read()
+    a, b = d.index('<!-- SEEDED-TABLE-BEGIN -->'), d.index('<!-- SEEDED-TABLE-END -->')
+    d = d[:a] + '<!-- SEEDED-TABLE-BEGIN -->\n' + '\n'.join(out) + '\n' + d[b:]
+    a, b = d.index('<!-- SEEDED-SUMMARY-BEGIN -->'), d.index('<!-- SEEDED-SUMMARY-END -->')
+    d = d[:a] + '<!-- SEEDED-SUMMARY-BEGIN -->\n' + summary + '\n' + d[b:]
+    open('/verif/DESIGN.md', 'w').write(d)
+    builtins.print('DESIGN.md updated:', summary)
+else:
+    builtins.print('\n'.join(out))
+    builtins.print()
+    builtins.print(summary)
